@@ -629,27 +629,34 @@ func main() {
 		os.Exit(2)
 	}
 	os.MkdirAll(*out, 0o755)
-	files := map[string]string{
-		"GenConsts.v":         genConsts(),
-		"GenTables.v":         genTables(),
-		"GenRyu.v":            genRyu(),
-		"GenKernels.v":        genKernels(),
-		"GenFuncs.v":          genFuncs(),
-		"GenSorter.v":         genSorter(),
-		"GenGrouper.v":        genGrouper(),
-		"GenFilterClause.v":   genFilterClause(),
-		"GenStrSer.v":         genStrSer(),
-		"GenRyuText.v":        genRyuText(),
-		"GenFastCsv.v":        genFastCsv(),
-		"GenQFrameOps.v":      genQFrameOps(),
-		"GenExprTree.v":       genExprTree(),
-		"GenIoCsv.v":          genIoCsv(),
-		"GenSqlIO.v":          genSqlIO(),
-		"GenAggr.v":           genAggr(),
-		"GenEnumFac.v":        genEnumFac(),
-		"GenFilterDispatch.v": genFilterDispatch(),
-		"GenColApply.v":       genColApply(),
-		"GenIoJson.v":         genIoJson(),
+	// every generator is run with a note of whether it reported a problem
+	files := map[string]string{}
+	troubled := map[string]bool{}
+	gens := []struct {
+		name string
+		f    func() string
+	}{
+		{"GenConsts.v", genConsts}, {"GenTables.v", genTables}, {"GenRyu.v", genRyu}, {"GenKernels.v", genKernels},
+		{"GenFuncs.v", genFuncs}, {"GenSorter.v", genSorter}, {"GenGrouper.v", genGrouper},
+		{"GenFilterClause.v", genFilterClause}, {"GenStrSer.v", genStrSer}, {"GenRyuText.v", genRyuText},
+		{"GenFastCsv.v", genFastCsv}, {"GenQFrameOps.v", genQFrameOps}, {"GenExprTree.v", genExprTree},
+		{"GenIoCsv.v", genIoCsv}, {"GenSqlIO.v", genSqlIO}, {"GenAggr.v", genAggr}, {"GenEnumFac.v", genEnumFac},
+		{"GenFilterDispatch.v", genFilterDispatch}, {"GenColApply.v", genColApply}, {"GenIoJson.v", genIoJson},
+	}
+	// the first seven files mix translated and fallback definitions (every definition is self-contained there); for
+	// the later ones a fallback block may refer to generated types (an Inductive collected from the struct literals of
+	// the source, say) that the changed source no longer yields, so a generator that reported a problem is answered
+	// by the WHOLE golden file: the development keeps building, the exit status reports the broken tie
+	wholeFile := map[string]bool{}
+	for i, g := range gens {
+		n0 := len(problems)
+		files[g.name] = g.f()
+		if len(problems) > n0 {
+			troubled[g.name] = true
+		}
+		if i >= 7 {
+			wholeFile[g.name] = true
+		}
 	}
 	// Files are written even when problems were found so that the directed search can still build: every
 	// definition that could not be derived from the current source is taken from the golden copy (the output
@@ -663,7 +670,11 @@ func main() {
 	}
 	for n, c := range files {
 		if *golden != "" {
-			c = withFallbacks(c, filepath.Join(*golden, n))
+			if g, err := os.ReadFile(filepath.Join(*golden, n)); err == nil && troubled[n] && wholeFile[n] && len(g) > 0 {
+				c = "(* FALLBACK: the whole file is the golden copy (the translator reported a problem on the current source) *)\n" + string(g)
+			} else {
+				c = withFallbacks(c, filepath.Join(*golden, n))
+			}
 		}
 		writeIfChanged(filepath.Join(*out, n), c)
 	}
